@@ -193,19 +193,21 @@ Definition stack_pop_part (st : wst) (part : bytes)
   end.
 
 (* final check_current (imp.rs:451-456) and Ok(Complete(current)) *)
-Definition final_check (st : wst) : prog wres :=
-  r <- check_current (w_cur st) (w_root st) (w_exp st) ;;
+Definition final_check_gen (chk : Z -> Z -> list bytes -> prog (result unit ekind)) (st : wst) : prog wres :=
+  r <- chk (w_cur st) (w_root st) (w_exp st) ;;
   match r with
   | Err e => bail st None e
   | Ok _ =>
       r1 <- rc_drop (w_root st) (w_refs st) ;;
       Ret (finish st r1 (w_stack st) (Ok (Complete (w_cur st))))
   end.
+Definition final_check : wst -> prog wres := final_check_gen check_current.
 
 (* one `Ok(next)`/`Err` round of the loop body for the component [part]
    (imp.rs:262-449); [inner] continues the loop, [follow] restarts it after a
    symlink body was spliced in. *)
-Definition walk_open (nosym nofollow : bool)
+Definition walk_open (chk : Z -> Z -> list bytes -> prog (result unit ekind)) (fin : wst -> prog wres)
+           (nosym nofollow : bool)
            (follow : option (wst -> list bytes -> prog wres))
            (inner : wst -> list bytes -> prog wres)
            (remaining : bytes) (rest : list bytes) (st : wst) (part : bytes) : prog wres :=
@@ -214,7 +216,7 @@ Definition walk_open (nosym nofollow : bool)
   match r with
   | Err e => ret_partial st None remaining e
   | Ok next =>
-      r <- (if is_dotdot part then check_current next (w_root st) (w_exp st) else Ret (Ok tt)) ;;
+      r <- (if is_dotdot part then chk next (w_root st) (w_exp st) else Ret (Ok tt)) ;;
       match r with
       | Err e => bail st (Some next) e
       | Ok _ =>
@@ -235,7 +237,7 @@ Definition walk_open (nosym nofollow : bool)
               else if is_nil rest && nofollow then
                 (* current = next.into(); break *)
                 st' <- set_cur st next true (w_exp st) (w_stack st) ;;
-                final_check st'
+                fin st'
               else if nosym then ret_partial st (Some next) remaining (OsError ELOOP)
               else
                 r <- may_follow_link (w_cur st) next ;;
@@ -286,15 +288,16 @@ Definition walk_open (nosym nofollow : bool)
 
 (* the `while let Some(part) = remaining_components.pop_front()` loop of
    do_resolve (imp.rs:213-449) *)
-Definition walk_body (nosym nofollow : bool)
+Definition walk_body (chk : Z -> Z -> list bytes -> prog (result unit ekind)) (fin : wst -> prog wres)
+           (nosym nofollow : bool)
            (follow : option (wst -> list bytes -> prog wres))
   : wst -> list bytes -> prog wres :=
   fix inner (st : wst) (comps : list bytes) : prog wres :=
     match comps with
-    | [] => final_check st
+    | [] => fin st
     | part0 :: rest =>
         let remaining := join_slash (part0 :: rest) in
-        let go_open := walk_open nosym nofollow follow inner remaining rest in
+        let go_open := walk_open chk fin nosym nofollow follow inner remaining rest in
         if is_nil part0 then go_open st [DOT]
         else if is_dot part0 then go_open st part0
         else if is_dotdot part0 then
@@ -319,13 +322,17 @@ Definition walk_body (nosym nofollow : bool)
                      w_refs := w_refs st; w_stack := w_stack st |} part0
     end.
 
-Fixpoint walk (budget : nat) (nosym nofollow : bool) : wst -> list bytes -> prog wres :=
+Fixpoint walk_gen (chk : Z -> Z -> list bytes -> prog (result unit ekind)) (fin : wst -> prog wres)
+         (budget : nat) (nosym nofollow : bool) : wst -> list bytes -> prog wres :=
   match budget with
-  | O => walk_body nosym nofollow None
+  | O => walk_body chk fin nosym nofollow None
   | S bd =>
-      walk_body nosym nofollow
-        (match bd with O => None | S _ => Some (walk bd nosym nofollow) end)
+      walk_body chk fin nosym nofollow
+        (match bd with O => None | S _ => Some (walk_gen chk fin bd nosym nofollow) end)
   end.
+
+(* the walk of do_resolve: '..' steps are checked by check_current, the result by final_check *)
+Definition walk : nat -> bool -> bool -> wst -> list bytes -> prog wres := walk_gen check_current final_check.
 
 (* do_resolve (imp.rs:179-457) *)
 Definition do_resolve (root : Z) (path : bytes) (nosym nofollow : bool) (stack : option sstack)
